@@ -622,6 +622,21 @@ func genChainSkel(repo string) ([]byte, error) {
 		}
 		b.WriteString("]\n\n")
 	}
+	// lock discipline of the whole file: per method of Manager, the operations on m.mu in source
+	// order, whether the method is exported, and whether it touches the manager's state directly
+	b.WriteString("/-- type of `Manager.mu` as written in the struct declaration -/\n")
+	fmt.Fprintf(&b, "def managerMutexType : String := %q\n\n", managerMutexType(f))
+	b.WriteString("/-- (method of Manager, exported, operations on m.mu in source order, touches m.tipState/m.store/m.txpool/listener maps directly, touches them before the first operation on m.mu) -/\n")
+	b.WriteString("def managerLocks : List (String × Bool × List String × Bool × Bool) := [\n")
+	lp := managerLockProfiles(f)
+	for i, l := range lp {
+		sep := ","
+		if i == len(lp)-1 {
+			sep = ""
+		}
+		fmt.Fprintf(&b, "  (%q, %v, %s, %v, %v)%s\n", l.name, l.exported, leanStrList(l.ops), l.touches, l.early, sep)
+	}
+	b.WriteString("]\n\n")
 	b.WriteString("/-- (function, store-writing methods it calls, manager chain-state fields it assigns) -/\n")
 	b.WriteString("def chainFrame : List (String × List String × List String) := [\n")
 	for i, fr := range frames {
@@ -757,5 +772,114 @@ func helpersFor(f *ast.File, known map[string]bool, recv, self string) map[strin
 			out[self+"."+fd.Name.Name] = fd
 		}
 	}
+	return out
+}
+
+
+// ---- lock discipline of chain.Manager ----
+
+type lockProfile struct {
+	name     string
+	exported bool
+	ops      []string
+	touches  bool
+	early    bool // touches the state at a source position before the first operation on m.mu
+}
+
+func managerMutexType(f *ast.File) string {
+	out := "?"
+	ast.Inspect(f, func(n ast.Node) bool {
+		ts, ok := n.(*ast.TypeSpec)
+		if !ok || ts.Name.Name != "Manager" {
+			return true
+		}
+		st, ok := ts.Type.(*ast.StructType)
+		if !ok {
+			return false
+		}
+		for _, fl := range st.Fields.List {
+			for _, nm := range fl.Names {
+				if nm.Name == "mu" {
+					out = exprString(fl.Type)
+				}
+			}
+		}
+		return false
+	})
+	return out
+}
+
+func managerLockProfiles(f *ast.File) []lockProfile {
+	var out []lockProfile
+	// the unexported methods run under the caller's lock: calling one is touching the state.
+	// Unexported methods that did not exist when the table was frozen (knownManagerFuncs) are the
+	// product of an "extract helper" refactoring: their lock operations and state accesses are
+	// read at the call site, like the skeletons do, and they get no row of their own.
+	internal := map[string]bool{}
+	helper := map[string]*ast.FuncDecl{}
+	for _, d := range f.Decls {
+		if fd, ok := d.(*ast.FuncDecl); ok && fd.Body != nil && recvType(fd) == "Manager" && !ast.IsExported(fd.Name.Name) {
+			if knownManagerFuncs["Manager."+fd.Name.Name] {
+				internal[fd.Name.Name] = true
+			} else if len(fd.Recv.List[0].Names) == 1 {
+				helper[fd.Name.Name] = fd
+			}
+		}
+	}
+	for _, d := range f.Decls {
+		fd, ok := d.(*ast.FuncDecl)
+		if !ok || fd.Body == nil || recvType(fd) != "Manager" || len(fd.Recv.List[0].Names) != 1 || helper[fd.Name.Name] != nil {
+			continue
+		}
+		lp := lockProfile{name: fd.Name.Name, exported: ast.IsExported(fd.Name.Name)}
+		locked := false // an operation on m.mu has been seen
+		var walk func(n ast.Node, self string, deferred bool, depth int)
+		walk = func(n ast.Node, self string, deferred bool, depth int) {
+			ast.Inspect(n, func(x ast.Node) bool {
+				switch e := x.(type) {
+				case *ast.DeferStmt:
+					walk(e.Call, self, true, depth)
+					return false
+				case *ast.CallExpr:
+					if sel, ok := e.Fun.(*ast.SelectorExpr); ok {
+						if exprString(sel.X) == self+".mu" {
+							op := sel.Sel.Name
+							if deferred {
+								op = "defer " + op
+							}
+							lp.ops = append(lp.ops, op)
+							locked = true
+						}
+						if id, ok := sel.X.(*ast.Ident); ok && id.Name == self && depth < 4 {
+							if h := helper[sel.Sel.Name]; h != nil {
+								for _, a := range e.Args {
+									walk(a, self, deferred, depth)
+								}
+								walk(h.Body, h.Recv.List[0].Names[0].Name, deferred, depth+1)
+								return false
+							}
+						}
+					}
+				case *ast.SelectorExpr:
+					if id, ok := e.X.(*ast.Ident); ok && id.Name == self {
+						switch n := e.Sel.Name; {
+						case n == "tipState", n == "store", n == "txpool", n == "onReorg", n == "onPool", n == "expiringFileContractOrder", internal[n]:
+							lp.touches = true
+							if !locked {
+								lp.early = true
+							}
+						}
+					}
+				}
+				return true
+			})
+		}
+		walk(fd.Body, fd.Recv.List[0].Names[0].Name, false, 0)
+		if len(lp.ops) == 0 {
+			lp.early = false // no lock at all: nothing is "before" it
+		}
+		out = append(out, lp)
+	}
+	sort.Slice(out, func(i, j int) bool { return out[i].name < out[j].name })
 	return out
 }
